@@ -12,7 +12,7 @@ ID = "C08"
 LEVEL = "exploration"
 RULE = ("attribute trees with 2..8 distinct values per key (incl. the empty extension and entries directly in the "
         "root) x one or two grouping keys from ext, dir, is_dir, mode, uid, length(name) (always selected) x aggregate "
-        "lists as in C07 x optional WHERE x optional ORDER BY on a selected key or integer aggregate (asc/desc). "
+        "lists as in C07, each aggregate plain or inside a scalar function (concat, lower, upper - wrappers the check can strip) x optional WHERE x optional ORDER BY on a selected key or plain integer aggregate (asc/desc). "
         "Oracle: the ungrouped non-aggregate run gives (key tuple, inner values) per entry; the model partitions by "
         "displayed key text: same set of key tuples, one row per key, per-group aggregates equal the reference, "
         "sum of group COUNTs/SUMs equals the ungrouped aggregate query, a sample of groups is re-obtained with "
@@ -44,12 +44,15 @@ def strategy_(draw, tier):
     elif w == "files":
         where = "is_file = true"
     aggs = draw(c07.agg_list(w == "files"))
+    # an aggregate may sit inside a scalar function (decodable wrappers only): the value must still be the group's
+    for a in aggs:
+        a["wrap"] = draw(st.sampled_from([None, None, None, "concat-post", "concat-pre", "lower", "upper"]))
     # select list: keys and aggregates interleaved in a drawn order, keys always present
     sel = [("k", i) for i in range(len(keys))] + [("a", i) for i in range(len(aggs))]
     sel = draw(st.permutations(sel))
     order = None
     if draw(st.booleans()):
-        cands = [s for s in sel if s[0] == "k" or aggs[s[1]]["f"] in INT_AGGS]
+        cands = [s for s in sel if s[0] == "k" or (aggs[s[1]]["f"] in INT_AGGS and not aggs[s[1]]["wrap"])]
         if cands:
             order = {"item": list(draw(st.sampled_from(cands))), "desc": draw(st.booleans()),
                      "positional": draw(st.sampled_from([False, False, True]))}
@@ -60,9 +63,18 @@ def strategy(tier):
     return strategy_(tier)
 
 
+WRAP = {"concat-post": ("concat(%s, '#')", lambda c: c[:-1] if c.endswith("#") else None),
+        "concat-pre": ("concat('n=', %s)", lambda c: c[2:] if c.startswith("n=") else None),
+        "lower": ("lower(%s)", lambda c: c), "upper": ("upper(%s)", lambda c: c.lower() if "E" in c else c)}
+
+
 def sel_text(case, item):
     kind, i = item
-    return case["keys"][i] if kind == "k" else c07.agg_text(case["aggs"][i])
+    if kind == "k":
+        return case["keys"][i]
+    a = case["aggs"][i]
+    t = c07.agg_text(a)
+    return WRAP[a["wrap"]][0] % t if a.get("wrap") else t
 
 
 def key_is_int(k):
@@ -123,9 +135,16 @@ def check(case):
                     a = aggs[s[1]]
                     v = list(range(n)) if a["inner"] == "*" else [m[inners.index(a["inner"])] for m in members]
                     ref = n if a["f"] == "count" else c07.reference(a["f"], v)
-                    why = c07.compare(a["f"], r[si], ref, v)
+                    cell = r[si]
+                    if a.get("wrap"):
+                        cell = WRAP[a["wrap"]][1](cell)
+                        if cell is None:
+                            out.add("C08/group-aggregate/wrapper-lost", query=gq, key=list(kt), column=sel_text(case, s), cell=r[si])
+                            continue
+                    why = c07.compare(a["f"], cell, ref, v)
                     if why:
-                        out.add("C08/group-aggregate/%s" % a["f"], query=gq, key=list(kt), column=c07.agg_text(a),
+                        out.add("C08/group-aggregate/%s%s" % (a["f"], "/inside-function" if a.get("wrap") else ""), query=gq,
+                                key=list(kt), column=sel_text(case, s),
                                 cell=r[si], reference=str(float(ref)) if ref is not None else None, members=n, why=why)
         # conservation against the ungrouped aggregate query
         cons = [("count", "*")] + [("sum", i) for i in inners]
@@ -190,6 +209,7 @@ def check(case):
         out.nontrivial = (len(parts) >= 3 and big) or len(keys) == 2
         out.classes = sorted({"groups=%s" % ("0" if not parts else "1-2" if len(parts) < 3 else "3-8" if len(parts) <= 8 else "9+"),
                               "keys=%d" % len(keys)} | {"key=" + k for k in keys} |
+                             ({"aggregate-inside-function"} if any(a.get("wrap") for a in aggs) else set()) |
                              ({"order-by"} if case["order"] else set()) | ({"where"} if case["where"] else set()) |
                              ({"empty-key-value"} if any("" in k for k in parts) else set()))
         out.sample = {"query": gq, "groups": len(parts), "rows": len(rows)}
